@@ -358,3 +358,24 @@ Example C01_cross_link_example :
        | _ => False
        end.
 Proof. repeat split; try (vm_compute; reflexivity). intros [|] [| | |]; vm_compute; repeat split. Qed.
+
+(* format-confusing values: the opening of the other format inside property values, node id and graph id changes
+   nothing - the JSON text reads back as the graph (text level), the GraphML document too, and every entry point
+   imports either text *)
+Example C01_format_confusing_values :
+  graph_wf ex_confusing = true /\ graph_json_text_ok ex_names ex_confusing = true
+  /\ match json_text ex_names ex_confusing with
+     | Some s => json_read_text ex_names s = Some ex_confusing | None => False end
+  /\ match serialize_graphml ex_confusing with
+     | Some d => read_graphml d = Some ex_confusing | None => False end
+  /\ forall f ep,
+       let s := fst (add_graph_direct empty_store (S"{") ex_confusing) in
+       match serialize_graph s (S"{") f with
+       | Some (Some t) =>
+           let '(s', r) := import_via ep s t (S"<graphml") in
+           let rid := if is_direct ep then S"{" else S"<graphml" in
+           r = ROk rid /\ option_map content (extract s' rid)
+                          = Some (content (if is_direct ep then ex_confusing else restamp (S"<graphml") ex_confusing))
+       | _ => False
+       end.
+Proof. repeat split; try (vm_compute; reflexivity). intros [|] [| | |]; vm_compute; repeat split. Qed.
